@@ -52,8 +52,9 @@ def r1_run_xmlsec(run):
               fi.loc())
     rets = cfg.by_kind("return")
     for r in rets:
-        ok = all(cfg.dominates(t.id, r.id) for t in tests) and \
-            (not vcalls or True)
+        # (split conjunctions give several tests; the outermost one is on
+        # every path, the flag-sensitive search above decides the rest)
+        ok = any(cfg.dominates(t.id, r.id) for t in tests)
         run.check(ok and tests, "R1", fi.qual + "::return-after-checks",
                   "the result is returned only after the return-code test",
                   "a return bypasses the return-code test", fi.loc(r.ast),
